@@ -1,18 +1,22 @@
 from tools import vlib
 from tools.props import scope_common as sc
 
-RULE = ("26 use snippets (type / count / method / no-field / not-writable / not-overridable problems, deprecated calls, expressions, fields and "
-        "parameters, must_use statements) x 13 re-binding constructs (local, multi-local, first/second parameter, numeric and generic loop "
+RULE = ("47 use snippets (type / count / method / no-field / not-writable / not-overridable problems, deprecated calls, expressions, fields and "
+        "parameters, must_use statements) x 20 re-binding constructs (loops with function literals in their header expressions, closure-argument parameters; local, multi-local, first/second parameter, numeric and generic loop "
         "variables, local function, captured by a closure, method parameter, repeat-until local, if / else branch local) under lua51 extended "
         "with deprecated entries: the use inside the binding's scope must draw no incorrect_standard_library_use / deprecated / must_use "
         "diagnostic; the use after and before the scope must be linted exactly like the twin whose binding has a fresh name (token space); "
-        "a control run shows the snippet fires without the binding; plus the scope stream (must_use model vs implementation on every "
+        "a control run shows the snippet fires without the binding; plus the whole-program stream (generated libraries over the generator's root names, which the programs also re-bind; lua51 + deprecated entries; dense call / access statements inside and after every binding construct; fixtures): every incorrect_standard_library_use / deprecated diagnostic with range and message vs the tree-level model, and judged by the Lua resolver (no diagnostic may start at an identifier Lua binds locally); plus the scope stream (must_use model vs implementation on every "
         "fixture / generated program); non-trivial = the control run fires")
 
 
 def body(ctx):
     outdir, meta = ctx.harness("c07", 0)
     ctx.correspond(outdir, nontrivial_tag=lambda t: "control-fires" in t)
+    # whole programs through the two tree-walking library lints: real diagnostics (ranges, messages) vs the tree-level model
+    # of Selene/Std/Prog.lean; the hypothesis `firstRefCoherent` of C07_std_inside / C07_std_outside is evaluated on every program
+    outdir, meta = ctx.harness("stdprog", 120 if ctx.tier == "quick" else 4000)
+    ctx.correspond(outdir, nontrivial_tag=lambda t: "silent" not in t)
     n = 150 if ctx.tier == "quick" else 2000
     outdir, meta = ctx.harness("scope", n)
     # the scope stream ties the must_use / resolved-flag model to the code; its C01-C03 clauses belong to those properties
@@ -21,7 +25,8 @@ def body(ctx):
 
 def check(ctx):
     ctx.assumptions = list(sc.ASSUME) + [
-        "the call-check and deprecated lints are modelled only up to their gate here (C05 models the call check itself); their gating is exercised by the twin programs",
+        "incorrect_standard_library_use and deprecated are modelled over whole programs (Selene/Std/Prog.lean: traversal, gate, name path, call suffix, ranges, messages) and compared with the real diagnostics of every program; must_use is modelled over the call-statement table of the full ScopeVisitor model",
+        "C07_std_inside / C07_std_outside carry the executable hypothesis firstRefCoherent (reads agree with the first reference recorded at their token), evaluated by the driver on every program of the run",
     ]
     return vlib.standard_check(ctx, ["Selene.Props.C07"], body,
                                trusted=vlib.BASE_TRUST + ["harness/src/c07.rs (program templates)"], rule=RULE)
